@@ -65,4 +65,13 @@ CHECKS['C06'] = {
   'technique': 'interprocedural path enumeration with equality tracking and constant specialisation; must-pass cuts; dispatch validation',
 }
 
+CHECKS['C05'] = {
+  'text': 'Decides ownership pairing on every CFG path of every removal/teardown routine of Array, List, Table and Tree: '
+          'destruct exactly once per owned part before its storage is overwritten or freed, count adjusted once, teardown '
+          'traversals cover the full element set, byte-wise relocation only where the source is released without destruct, '
+          'assignment clears first and copies deeply. Does not decide the run-time ledger of live elements.',
+  'note': ASSUME,
+  'technique': 'per-path event counting/ordering (COUNT/ORDER), traversal coverage by loop-shape analysis, pointer-origin analysis',
+}
+
 NOT_APPLICABLE = {}
